@@ -82,6 +82,13 @@ CLIENT_ASSUME = ["net.Conn delivers bytes in order and honours armed deadlines (
                  "the verif hook VerifAttachConn only sets the client's conn field (attach mode starts with connection 0 established; connect() itself is exercised in tcp mode)",
                  "reply frames handed to the client are encoded with rscp.Write on the harness's own cipher states (C01 ties Write to the model)"]
 
+def cmp_c13(case, impl, model):
+    if case.startswith("JOUTC "):
+        # scalar/container collision under one tag: the property pins validity and "no crash", not the rendering
+        return None if impl.split(" ")[0] == model.split(" ")[0] else "one side fails where the other renders"
+    return None if impl == model else "the rendered document differs from the model's"
+
+
 CODEC_ASSUME = ["github.com/azihsoyn/rijndael256 + crypto/cipher CBC compute the Gallina Rijndael-256/CBC (compared byte for byte on every W/R case of this run)",
                 "hash/crc32.ChecksumIEEE computes the Gallina bit-serial CRC-32 (compared on this run)",
                 "encoding/binary little-endian layout, time.Unix normalisation as modelled"]
@@ -103,6 +110,12 @@ PROPS = {
     "C11": {"exec": "C11", "compare": _proj(lambda e: _logs_dump_tree(e) or e.startswith("WRITE")),
             "assumptions": CLIENT_ASSUME + ["PARTIAL: fmt/logrus rendering is not modelled; the rendered log text is scanned (literal, hex, base64, byte dumps parsed back)",
                                             "ciphertext does not contain the password as a substring (cipher_hides premise of C11_no_secret)"]},
+    "C12": {"exec": "C12", "needs": ["e3dc.test"],
+            "assumptions": ["JSON text syntax, key matching and duplicate-key rules of encoding/json (the model starts at a syntax tree; generated texts use exact key names)",
+                            "decimal -> binary rounding of strconv.ParseFloat and RFC 3339 parsing of time (oracle annotations of the syntax tree)"]},
+    "C13": {"exec": "C13", "needs": ["e3dc.test"], "compare": cmp_c13,
+            "assumptions": ["number, string and time formatting of encoding/json / strconv / time (oracle table per case)",
+                            "for a tag used for both a scalar and a container only validity and the absence of a crash are compared (the property does not fix that rendering)"]},
     "C14": {
         "exec": "C14",
         "exhaustive": True,
